@@ -15,7 +15,9 @@ DELAYS = {"delay_fixed", "delay_pull", "delay_push"}
 # unit catalogue for link traffic: (factor to SI of its dimension, offset in SI)
 UNIT_TABLE = {"": (1.0, 0.0), "m": (1.0, 0.0), "km": (1000.0, 0.0), "mm": (0.001, 0.0), "cm": (0.01, 0.0),
               "s": (1.0, 0.0), "m/s": (1.0, 0.0), "mm/d": (0.001 / 86400.0, 0.0), "m s": (1.0, 0.0),
-              "mm s": (0.001, 0.0), "K": (1.0, 0.0), "degC": (1.0, 273.15)}
+              "mm s": (0.001, 0.0), "K": (1.0, 0.0), "degC": (1.0, 273.15),
+              # dimensionless but scaled: plain numbers, percent, parts per million
+              "1": (1.0, 0.0), "percent": (0.01, 0.0), "ppm": (1e-6, 0.0)}
 
 
 def convert(v, u_from, u_to):
@@ -371,7 +373,7 @@ class E1Model:
             st["t"] = st["t"] + c["steps"][k % len(c["steps"])]
             st["k"] = k + 1
             if (k + 1) not in o.get("nopush", ()):
-                lst.append((st["t"], float(o["base"] + (k + 1) * o.get("inc", 1))))
+                lst.append((st["t"], float(o["base"] + ((k + 1) // o.get("plateau", 1)) * o.get("inc", 1))))
         return lst
 
     def _make_link(self, li, ln):
